@@ -21,6 +21,9 @@ const (
 	// oCompletePanic is a stage level outcome of the systematic trees: plan ok, Complete() panics. Unlike the other
 	// failures it does not keep the stage from planning its next stages.
 	oCompletePanic = "complete-panic"
+	// oNilPlan is a stage level outcome too: Plan() returns nil (as lindb's shard scan stage does for a shard without a
+	// data family in the query range): nothing to execute, the stage succeeds at once and plans its next stages.
+	oNilPlan = "nil-plan"
 )
 
 var failOutcomes = []string{oErr, oNFPlain, oErrIgnore, oPanicStr, oPanicErr, oPanicVal, oPanicRT}
@@ -28,7 +31,7 @@ var failOutcomes = []string{oErr, oNFPlain, oErrIgnore, oPanicStr, oPanicErr, oP
 func isPanicOutcome(o string) bool { return strings.HasPrefix(o, "panic") }
 
 func isFailOutcome(o string) bool {
-	return o != oOK && o != oNFIgnored
+	return o != oOK && o != oNFIgnored && o != oNilPlan
 }
 
 // opSpec is one operator (= one real stage.PlanNode) of a stage's plan tree.
@@ -165,7 +168,33 @@ func simpleStage(async bool, outcome string) *stageSpec {
 		// the plan succeeds, only the Complete() callback panics
 		return &stageSpec{Async: async, PlanKind: "empty-root", Ops: []opSpec{{Outcome: oOK, Parent: -1}}, CompletePanic: true}
 	}
+	if outcome == oNilPlan {
+		return &stageSpec{Async: async, PlanKind: "nil"}
+	}
 	return &stageSpec{Async: async, PlanKind: "empty-root", Ops: []opSpec{{Outcome: outcome, Parent: -1}}}
+}
+
+// hasNilPlan: some stage of the tree has no plan.
+func (t *treeSpec) hasNilPlan() bool {
+	for _, s := range t.stages() {
+		if s.PlanKind == "nil" {
+			return true
+		}
+	}
+	return false
+}
+
+// nilSystematicSpecs: every tree with up to maxN stages over outs + nil-plan that contains at least one stage without
+// a plan and at least two stages (a nil-plan stage at every position: root, inner node, leaf, first/last sibling,
+// inline and pooled, next to succeeding, failing and panicking stages).
+func nilSystematicSpecs(maxN int, outs []string) []*treeSpec {
+	var res []*treeSpec
+	for _, t := range systematicSpecs(maxN, append(append([]string(nil), outs...), oNilPlan)) {
+		if t.N >= 2 && t.hasNilPlan() {
+			res = append(res, t)
+		}
+	}
+	return res
 }
 
 // systematicSpecs enumerates every tree with up to maxN stages (one operator each), every sync/async
@@ -442,6 +471,83 @@ func stressSpec(r *rand.Rand) *treeSpec {
 			out = oErr
 		}
 		root.Children = append(root.Children, simpleStage(true, out))
+	}
+	t := &treeSpec{Root: root}
+	renumber(t)
+	return t
+}
+
+// nilSpec: a stage without a plan (Plan() returns nil) among siblings that are slower, fail or panic.  The stage has
+// nothing to execute, so it completes at once - inline in its parent's frame, or as the first thing a pool worker
+// does - while its siblings (gated in serial mode, delayed in free mode) and its parent are still unfinished.  The
+// nil-plan stage sits at a seeded position among 2-5 siblings, is a leaf or plans stages of its own, runs inline or
+// on a pool; the family above it may be a chain of further stages, some of them without a plan as well.
+func nilSpec(r *rand.Rand) *treeSpec {
+	asyncP := []int{0, 30, 60, 100}[r.Intn(4)]
+	async := func() bool { return r.Intn(100) < asyncP }
+	mk := func(out string) *stageSpec {
+		s := simpleStage(async(), out)
+		if out != oNilPlan && out != oCompletePanic && r.Intn(3) == 0 {
+			// a longer plan: more operators before/after the deciding one
+			extra := 1 + r.Intn(2)
+			for k := 0; k < extra; k++ {
+				s.Ops = append(s.Ops, opSpec{Outcome: oOK, Parent: -1})
+			}
+			if r.Intn(2) == 0 {
+				s.Ops[0], s.Ops[len(s.Ops)-1] = s.Ops[len(s.Ops)-1], s.Ops[0]
+			}
+		}
+		return s
+	}
+	parent := mk([]string{oOK, oOK, oOK, oNilPlan}[r.Intn(4)])
+	n := 2 + r.Intn(4)
+	nilAt := map[int]bool{[]int{0, n - 1, r.Intn(n)}[r.Intn(3)]: true}
+	if r.Intn(4) == 0 {
+		nilAt[r.Intn(n)] = true
+	}
+	failAt := -1
+	for try := 0; try < 8 && r.Intn(6) != 0; try++ {
+		if k := r.Intn(n); !nilAt[k] {
+			failAt = k
+			break
+		}
+	}
+	for i := 0; i < n; i++ {
+		var c *stageSpec
+		switch {
+		case nilAt[i]:
+			c = mk(oNilPlan)
+			// inner node: the stage without a plan plans stages of its own
+			if r.Intn(2) == 0 {
+				for k := 1 + r.Intn(2); k > 0; k-- {
+					c.Children = append(c.Children, mk([]string{oOK, oOK, oErr, oNilPlan, oPanicStr}[r.Intn(5)]))
+				}
+			}
+		case i == failAt:
+			c = mk([]string{oErr, oErr, oNFPlain, oPanicStr, oPanicErr, oCompletePanic}[r.Intn(6)])
+		default:
+			c = mk([]string{oOK, oOK, oOK, oNFIgnored}[r.Intn(4)])
+			if r.Intn(4) == 0 {
+				c.Children = append(c.Children, mk([]string{oOK, oErr}[r.Intn(2)]))
+			}
+		}
+		parent.Children = append(parent.Children, c)
+	}
+	root := parent
+	// (at most four levels: a stage on a pool only submits to the pools of deeper levels)
+	for k := r.Intn(2); k > 0; k-- {
+		up := mk([]string{oOK, oOK, oNilPlan}[r.Intn(3)])
+		up.Children = []*stageSpec{root}
+		if r.Intn(3) == 0 {
+			// an uncle that is still busy / fails later
+			u := mk([]string{oOK, oErr}[r.Intn(2)])
+			if r.Intn(2) == 0 {
+				up.Children = append(up.Children, u)
+			} else {
+				up.Children = append([]*stageSpec{u}, up.Children...)
+			}
+		}
+		root = up
 	}
 	t := &treeSpec{Root: root}
 	renumber(t)
